@@ -8,6 +8,7 @@ import (
 	"github.com/anyproto/any-sync/commonspace/object/accountdata"
 	"github.com/anyproto/any-sync/commonspace/object/acl/aclrecordproto"
 	"github.com/anyproto/any-sync/commonspace/object/acl/list"
+	"github.com/anyproto/any-sync/util/crypto"
 )
 
 func newNodeKeys() (*accountdata.AccountKeys, error) { return accountdata.NewRandom() }
@@ -40,17 +41,21 @@ func (h *hist) commit(op *pendingOp) (err error, alive bool) {
 	if derr != nil {
 		h.r.Fatal("cannot decode an accepted record: " + derr.Error())
 	}
-	if op.newKey != nil {
-		h.gens = append(h.gens, gen{recId: raw.Id, key: op.newKey, at: idx})
+	// the read keys this record introduces, one per rotation content, in content order
+	h.pendKeys = op.newKeys
+	if len(h.pendKeys) == 0 && op.newKey != nil {
+		h.pendKeys = []crypto.SymKey{op.newKey}
 	}
+	h.composed = op.shape != ""
 	invNo := 0
 	var items []string
-	for _, c := range data.AclContent {
+	for ci, c := range data.AclContent {
+		h.ci = ci
 		switch {
 		case c.GetInvite() != nil:
 			iv := c.GetInvite()
 			v := &invite{idx: len(h.invs), open: iv.InviteType == aclrecordproto.AclInviteType_AnyoneCanJoin, perm: list.AclPermissions(iv.Permissions),
-				recId: raw.Id, live: true, createdAt: idx, revokedAt: -1, pubProto: iv.InviteKey}
+				recId: raw.Id, live: true, createdAt: idx, revokedAt: -1, revokedPos: -1, pubProto: iv.InviteKey}
 			if invNo < len(op.invKeys) {
 				v.priv = op.invKeys[invNo]
 			}
@@ -69,7 +74,7 @@ func (h *hist) commit(op *pendingOp) (err error, alive bool) {
 			found := false
 			for _, v := range h.invs {
 				if v.recId == id && v.live {
-					v.live, v.revokedAt = false, idx
+					v.live, v.revokedAt, v.revokedPos, v.revokedComposed = false, idx, idx*100+h.ci, h.composed
 					items = append(items, fmt.Sprintf("revoke %d", v.idx))
 					found = true
 					// NB: several invites created by one batch record share the record id; the real state keys invites
@@ -150,12 +155,14 @@ func (h *hist) commit(op *pendingOp) (err error, alive bool) {
 			for _, id := range rm.Identities {
 				a := h.accByProto(id)
 				removed = append(removed, a)
-				h.perm[a], h.lostAt[a] = pNone, idx
+				h.perm[a], h.lostAt[a], h.lostPos[a] = pNone, idx, idx*100+h.ci
 				delete(h.pendJoin, a)
 				delete(h.pendRemove, a)
 			}
+			h.newGen(raw.Id, idx)
 			items = append(items, h.rotation(rm.ReadKeyChange, removed, idx))
 		case c.GetReadKeyChange() != nil:
+			h.newGen(raw.Id, idx)
 			items = append(items, h.rotation(c.GetReadKeyChange(), nil, idx))
 		default:
 			items = append(items, "nop")
@@ -170,6 +177,15 @@ func (h *hist) commit(op *pendingOp) (err error, alive bool) {
 	return nil, true
 }
 
+// newGen registers the generation the rotation content being interpreted introduces.
+func (h *hist) newGen(recId string, idx int) {
+	if len(h.pendKeys) == 0 {
+		h.r.Fatal("a rotation content without a remembered read key")
+	}
+	h.gens = append(h.gens, gen{recId: recId, key: h.pendKeys[0], at: idx, pos: idx*100 + h.ci})
+	h.pendKeys = h.pendKeys[1:]
+}
+
 func b01(b bool) string {
 	if b {
 		return "1"
@@ -180,7 +196,7 @@ func b01(b bool) string {
 func (h *hist) admit(a int, p list.AclPermissions, idx int) {
 	h.perm[a] = p
 	if p == pNone {
-		h.lostAt[a] = idx
+		h.lostAt[a], h.lostPos[a] = idx, idx*100+h.ci
 	}
 }
 
@@ -190,7 +206,7 @@ func (h *hist) permChange(pc *aclrecordproto.AclAccountPermissionChange, idx int
 	h.perm[a] = nw
 	switch {
 	case old != pNone && nw == pNone:
-		h.lostAt[a] = idx
+		h.lostAt[a], h.lostPos[a] = idx, idx*100+h.ci
 		return fmt.Sprintf("drop %d", a)
 	case old == pNone && nw != pNone:
 		return fmt.Sprintf("grant %d", a)
@@ -291,8 +307,11 @@ func (h *hist) oracle() {
 		} else {
 			h.r.Count("oracle.nonmember")
 			for g, gn := range h.gens {
-				if gn.at < h.lostAt[a] {
-					continue // introduced while the account still held a permission (lostAt = -1: never admitted)
+				if gn.pos < h.lostPos[a] {
+					// introduced while the account still held a permission (-1: never admitted). Positions are
+					// record*100 + content index: a rotation that precedes the drop inside one record came first; the
+					// rotation nested in the AccountRemove that removes the account has the same position: denied
+					continue
 				}
 				if crow[g] != '0' || clos[g] != '0' {
 					h.violate("keys.nonmember-cannot", fmt.Sprintf("after record %d account %d holds no permission since record %d but obtains generation %d (introduced by record %d): view=%s derivable=%s", last, a, h.lostAt[a], g, gn.at, crow, clos))
@@ -313,7 +332,10 @@ func (h *hist) oracle() {
 		}
 		h.r.Count("oracle.invite-revoked")
 		for g, gn := range h.gens {
-			if gn.at >= v.revokedAt && clos[g] {
+			// record granular for records of the real builder (it emits revokes before the rotation); for a record the
+			// harness signed itself only the order of the contents is demanded
+			after := gn.at > v.revokedAt || (gn.at == v.revokedAt && (!v.revokedComposed || gn.pos > v.revokedPos))
+			if after && clos[g] {
 				if gn.at == v.revokedAt && h.sig == "" {
 					// the rotation and the revoke sit in the same record (finding F-keys-batch-revoke-keeps-key, fixed)
 					h.sig = "F-keys-batch-revoke-keeps-key"
